@@ -16,8 +16,10 @@ the process and then reported failure, `stop` killed it, `uninstall` removed / `
 Service identity: the service name is `antnode{number}`, its data directory `<base>/antnode{number}` and its
 binary `<data dir>/antnode`, so name, directory and binary path are all represented by `number`.
 The numbering rules (`startNumber`, `restartNumber`), whether `on_stop` clears the pid, whether `on_start` writes before
-or after its RPC calls and whether the daemon's restart records a replacement service whose first start failed are read
-from the Rust source by `rs2lean` (`Gen/Lifecycle.lean`).
+or after its RPC calls, whether the daemon's restart records a replacement service whose first start failed, whether
+`add_node` checks the requested port ranges against each other, and — for the command layer, `CmdCfg` at the end of this
+file — where each `antctl` command / antctld's `restart_handler` saves the registry and whether it runs the partial
+refresh first are read from the Rust source by `rs2lean` (`Gen/Lifecycle.lean`).
 
 Node RPC: every service definition carries the RPC port of its registry entry; a call to an RPC port is answered by
 the oldest live process launched with that port (`OS.rpcOwner`: the first to bind wins — the daemon's restart without
